@@ -163,6 +163,14 @@ def gen_rec(rng, allow_deep=True, deep_only=False):
     if kind == 'counter' and not distinct and depth > 6:
         depth = rng.randint(1, 6)
         ann = names[0]
+    if kind == 'counter' and distinct and depth > 12:
+        # a deep plan only shows its number of applications on a program that is still
+        # growing at the bound: let the counter run to about depth (+-)
+        k = rng.randint(depth - 2, depth + 5)
+        r_last = rules[-1]
+        rules[-1] = mk_rule('Nn', r_last['head'],
+                            [call('Nn', V('n')), ('cmp', '<', V('n'), L(k))], distinct=True)
+        labels.add('counter_reaches_bound')
     if ann and depth <= 20 and rng.random() < 0.12:
         explicit_iter = True
     prog = {'rules': rules, 'inj': {}, 'ann': [], 'names': names, 'ann_pred': ann,
